@@ -13,6 +13,7 @@ import (
 	"path/filepath"
 	"sort"
 	"strings"
+	"unicode/utf8"
 
 	"verifharness/gen"
 	"verifharness/ty"
@@ -496,28 +497,13 @@ func (g *G) stringPool() []string {
 }
 
 func classify(s string) string {
-	valid, multi := true, false
-	for i := 0; i < len(s); {
-		c := s[i]
-		if c < 0x80 {
-			i++
-			continue
-		}
-		multi = true
-		r := []rune(s[i:])
-		if r[0] == 0xFFFD && !strings.HasPrefix(s[i:], "\xef\xbf\xbd") {
-			valid = false
-		}
-		i += len(string(r[0]))
-		if r[0] == 0xFFFD && !strings.HasPrefix(s[i-len(string(r[0])):], "\xef\xbf\xbd") {
-			i = i - len(string(r[0])) + 1
-		}
-	}
-	switch {
-	case !valid:
+	if !utf8.ValidString(s) {
 		return "invalid"
-	case multi:
-		return "multibyte"
+	}
+	for i := 0; i < len(s); i++ {
+		if s[i] >= 0x80 {
+			return "multibyte"
+		}
 	}
 	return "ascii"
 }
